@@ -275,7 +275,9 @@ impl ParamCurveArclen for QuadBez {
 
         let v0 = 0.25 * a2 * a2 * b * (2.0 * sabc - c2) + sabc;
         // TODO: justify and fine-tune this exact constant.
-        if ba_c2 < 1e-13 {
+        // The comparison is relative to c2 (both are lengths), so that it does not depend on
+        // the scale of the coordinates.
+        if ba_c2 <= 1e-13 * c2 {
             // This case happens for Béziers with a sharp kink.
             v0
         } else {
